@@ -428,8 +428,14 @@ class Adversary:
             src = server
             live = self._live_ids(client, server)
             use = (inv + 128) % 256
-            while use in live:
+            for _ in range(256):
+                if use not in live:
+                    break
                 use = (use + 1) % 256
+            else:
+                # every one of the 256 ids is live toward that server: there is no wrong id to fake
+                w.probe('adv.no_free_id')
+                return
         data = wire.ctx_uint(0, 999) + wire.ctx_uint(1, ADV_TOK)
         apdu = [wire.simple_ack(use, 18), wire.complex_ack(use, 18, data), wire.error_pdu(use, 18, 0, 0),
                 wire.abort_pdu(use, 0, srv=True), wire.reject_pdu(use, 0), wire.segment_ack(use, 0, 1, srv=True)][variant]
